@@ -118,6 +118,13 @@ func (m *Migrator) Migrate(
 		if err != nil {
 			return nil, fmt.Errorf("computing oldest block kept: %w", err)
 		}
+		if floor == 0 {
+			// Every block is inside the keep window (pivot == retainedBlocks,
+			// or the whole chain is younger than minAge) — nothing to prune
+			// yet, and nothing may be wiped: there is no block below the
+			// floor to anchor the hash → number carve-out on.
+			return nil, nil
+		}
 		m.oldestBlockKept = floor
 		m.floorPinned = true
 	}
